@@ -130,6 +130,17 @@ def check_C01(tier: str, seed: int) -> int:
             cases.append((w.put(data), s, data))
         corpus = corpus_files()
         paths = [c[0] for c in cases] + corpus
+        # what the sprite reports must not depend on how the reader hands over the bytes (one at a time, 7 at a time, from a file)
+        lines = []
+        for pth in paths[:len(cases)][::3]:
+            lines += ["%s plain" % pth, "%s one" % pth, "%s bufreader 7" % pth, "%s file" % pth]
+        sb = run_sched([vplib.impl_driver("release"), "sched"], lines, w.dir, "c01sched", False)
+        reader_fail = []
+        for k in range(0, len(lines), 4):
+            blocks = sb[k:k + 4]
+            if any(b is None for b in blocks) or any(b[0] != blocks[0][0] for b in blocks[1:]):
+                reader_fail.append({"what": "the loaded sprite depends on how the reader delivers the bytes (slice / one byte at a time / BufReader(7) / read_file)",
+                                    "results": [b[0][:2] if b else None for b in blocks], "_data": open(lines[k].split()[0], "rb").read()})
         ib = vplib.impl_observe("release", paths, w.dir, 1)
         bigidx = set()                          # (the model handles 65535-chunk frames in well under a second since frev)
         small = [i for i in range(len(paths)) if i not in bigidx]
@@ -137,7 +148,7 @@ def check_C01(tier: str, seed: int) -> int:
         mb = list(ib)
         for i, r in zip(small, mres):
             mb[i] = r
-        corr_fail, direct_fail = [], []
+        corr_fail, direct_fail = [], list(reader_fail)
         dist = Counter()
         sigs = set()
         for i, p in enumerate(paths):
@@ -174,6 +185,42 @@ def check_C01(tier: str, seed: int) -> int:
 # ==========================================================================
 # shared input streams
 # ==========================================================================
+def twin_of(s: dict, rng: random.Random) -> dict:
+    """the same sprite structure (ids, sizes, offsets, layers) with other pixel values in its cels, tilesets and palette colours"""
+    import copy
+    t = copy.deepcopy(s)
+    depth = t["depth"]
+
+    def other(px):
+        if depth == 32:
+            return ((px[0] + 101) & 255, (px[1] + 53) & 255, (px[2] + 7) & 255, px[3])
+        if depth == 16:
+            return ((px[0] + 101) & 255, px[1])
+        return px
+    for c in t["cels"].values():
+        if c["kind"] in ("raw", "zlib"):
+            c["pixels"] = [other(p) for p in c["pixels"]]
+    for ts in t["tilesets"]:
+        ts["pixels"] = ts["pixels"][:ts["tw"] * ts["th"]] + [other(p) for p in ts["pixels"][ts["tw"] * ts["th"]:]]
+    if t["palette"]:
+        # indexed / any palette: change the colours, keep ids, alphas and names (pixel indices stay valid)
+        def recol(e):
+            return ((e[0] + 90) & 255, (e[1] + 45) & 255, (e[2] + 200) & 255, e[3], e[4])
+        t["palette"] = {k: recol(e) for k, e in t["palette"].items()}
+        pcs = []
+        for pc in t["palette_chunks"]:
+            if pc[0] == "new":
+                pcs.append(("new", pc[1], [recol(e) for e in pc[2]]))
+            else:
+                pcs.append(pc)
+        # legacy chunks carry their own colours: leave sprites with a legacy palette unchanged in that respect
+        if all(pc[0] == "new" for pc in t["palette_chunks"]):
+            t["palette_chunks"] = pcs
+        else:
+            t["palette"] = s["palette"]
+    return t
+
+
 def small_sprites(rng: random.Random, n: int, **kw) -> List[Tuple[dict, bytes]]:
     out = []
     for i in range(n):
@@ -522,6 +569,17 @@ def check_C13(tier: str, seed: int) -> int:
                 fr0 = ase.Frame(chunks=[ase.LayerChunk(name="a"), ase.CelChunk(layer=0, w=1, h=1, pixels=b"\1\2\3\4", ctype_cel=0)], count_mode=mode)
                 fr1 = ase.Frame(chunks=[last] if last is not None else [], count_mode=mode)
                 bases.append(("ending%d_%s" % (k, mode), ase.serialize(ase.Sprite(width=1, height=1, frames=[fr0, fr1]))))
+        # frames whose 32-bit field carries the count while the 16-bit field holds a smaller number (or zero)
+        for k in range(6 if tier == "quick" else 40):
+            s0 = gen.gen_sprite(rng, max_canvas=4, max_layers=3, max_frames=2, rich=False)
+            sp = gen.build(s0, None, rng)
+            for fr in sp.frames:
+                n = len(fr.chunks)
+                if n >= 2:
+                    fr.count_mode = (rng.choice([0, 1, n - 1, n // 2]), n)
+            data = ase.serialize(sp)
+            if len(data) <= 2500:
+                bases.append(("count_old_smaller_%d" % k, data))
         cases = []   # (path, base name, cut, must_fail)
         for name, data in bases:
             end = end_of_last_frame(data)
@@ -550,6 +608,15 @@ def check_C13(tier: str, seed: int) -> int:
         ib = vplib.impl_observe("release", paths, w.dir, 1)
         mb = vplib.model_observe(paths, w.dir, 1)
         corr_fail, direct_fail = [], []
+        # the same prefixes as files on disk, through the path-based entry point: a truncated file must fail there as well
+        sel = [i for i in range(len(cases)) if cases[i][3] and (i % 5 == 0 or cases[i][2] >= 0 and i % 2 == 0 and len(cases) < 20000)]
+        fl = run_sched([vplib.impl_driver("release"), "sched"], ["%s file" % cases[i][0] for i in sel], w.dir, "c13file", False)
+        for i, b in zip(sel, fl):
+            if not (1 <= outcome(b) <= 4):
+                direct_fail.append({"what": "a strict prefix ending before the end of the last frame, loaded with read_file, did not fail with an error",
+                                    "base": cases[i][1], "cut": cases[i][2], "outcome": outcome(b), "_data": open(cases[i][0], "rb").read()})
+                if len(direct_fail) > 4:
+                    break
         full: Dict[str, list] = {}
         for i, (p, name, m, must_fail) in enumerate(cases):
             d = same_block(ib[i], mb[i])
@@ -794,10 +861,21 @@ def run_sprites(prop: str, tier: str, seed: int, level: int, nq: int, nt: int, g
     try:
         rng = random.Random(seed)
         n = nq if tier == "quick" else nt
-        cases = [(s, data, w.put(data)) for s, data in small_sprites(rng, n, **genkw)]
+        cases = []
+        for i, (s, data) in enumerate(small_sprites(rng, n, **genkw)):
+            cases.append((s, data, w.put(data)))
+            if i % 3 == 0:
+                # a twin right behind it: the same structure with other pixel values (see the one-thread pass below)
+                t = twin_of(s, rng)
+                td = gen.encode(t, None, rng)
+                cases.append((t, td, w.put(td)))
         if extra_cases:
-            for s, data in extra_cases(rng, tier):
+            for i, (s, data) in enumerate(extra_cases(rng, tier)):
                 cases.append((s, data, w.put(data)))
+                if i % 3 == 0 and s["width"] * s["height"] <= 4096:
+                    t = twin_of(s, rng)
+                    td = gen.encode(t, None, rng)
+                    cases.append((t, td, w.put(td)))
         paths = [c[2] for c in cases]
         corpus = corpus_files() if include_corpus else []
         allp = paths + corpus
@@ -828,6 +906,16 @@ def run_sprites(prop: str, tier: str, seed: int, level: int, nq: int, nt: int, g
                     continue
                 for msg in direct(s, data, ib[i]):
                     direct_fail.append({"what": msg, "sprite": gen.describe(s), "_data": data})
+        # the generated sprites once more, all on ONE thread of ONE driver process, in list order (twins - same structure, other
+        # pixel values - sit next to each other): a result must not depend on what was loaded or rendered before
+        seq = vplib.impl_observe(profiles[0], paths, w.dir, level, max_frames=max_frames, max_layers=max_layers, shards=1, tag="seq")
+        for i, (s, data, _p) in enumerate(cases):
+            if seq[i] is None or ib[i] is None or seq[i][0] != ib[i][0]:
+                direct_fail.append({"what": "the observation of a sprite depends on the sprites loaded and rendered before it on the same thread",
+                                    "input": paths[i], "sprite": gen.describe(s), "_data": data})
+                for msg in (direct(s, data, seq[i]) if seq[i] is not None and outcome(seq[i]) == 0 and vplib.section_panic(seq[i]) is None else []):
+                    direct_fail.append({"what": msg + " (when loaded after other sprites on the same thread)", "sprite": gen.describe(s), "_data": data})
+                break
         composed = 0
         if compose:
             # every rendered pixel against the composition formula with Aseprite's blend functions (Spec/AseRef.v)
@@ -1563,11 +1651,77 @@ def blend_image(mode: int, k: int, variant: str, rng: random.Random, size: int =
             S.append(sp)
     if variant == "random" or variant == "alpha":
         lo, co = rng.choice([(255, 255), (lo, co), (rng.randrange(256), rng.randrange(256))])
+    # the layer flags other than "visible" (editable, lock movement, background, prefer linked cels, collapsed, reference) do not
+    # take part in compositing an RGBA sprite
+    fl = 1 | rng.choice([0, 0, 2, 4, 8, 12, 16, 32, 64, 126])
     fr = ase.Frame(chunks=[
-        ase.LayerChunk(flags=1, blend=0, opacity=255, name="b"), ase.LayerChunk(flags=1, blend=mode, opacity=lo, name="s"),
+        ase.LayerChunk(flags=1, blend=0, opacity=255, name="b"), ase.LayerChunk(flags=fl, blend=mode, opacity=lo, name="s"),
         ase.CelChunk(layer=0, w=size, h=size, pixels=ase.rgba_bytes(B), ctype_cel=2, zlevel=1),
         ase.CelChunk(layer=1, w=size, h=size, opacity=co, pixels=ase.rgba_bytes(S), ctype_cel=2, zlevel=1)])
     return ase.serialize(ase.Sprite(width=size, height=size, frames=[fr])), B, S, lo, co
+
+
+def blend_wide_image(mode: int, rng: random.Random):
+    """a two-layer sprite of 257 x 256 pixels (more than 65536 per cel; the last row repeats no earlier one)"""
+    W, H = 257, 256
+    lo, co = rng.choice([(255, 255), (200, 131)])
+    B = [((x * 3 + y) & 255, (y * 5 + 7) & 255, (x ^ y) & 255, 255 if (x + y) % 5 else 128) for y in range(H) for x in range(W)]
+    S = [((y * 7 + x * 2) & 255, (x + 2 * y) & 255, (x * y) & 255, 255 if (x * y) % 7 else 90) for y in range(H) for x in range(W)]
+    fr = ase.Frame(chunks=[
+        ase.LayerChunk(flags=1, blend=0, opacity=255, name="b"), ase.LayerChunk(flags=1, blend=mode, opacity=lo, name="s"),
+        ase.CelChunk(layer=0, w=W, h=H, pixels=ase.rgba_bytes(B), ctype_cel=rng.choice([0, 2]), zlevel=1),
+        ase.CelChunk(layer=1, w=W, h=H, opacity=co, pixels=ase.rgba_bytes(S), ctype_cel=rng.choice([0, 2]), zlevel=1)])
+    return ase.serialize(ase.Sprite(width=W, height=H, frames=[fr])), B, S, lo, co
+
+
+def blend_apart_image(mode: int, rng: random.Random):
+    """two small cels of ONE colour on two layers of the same mode and different opacities, placed apart (or partly
+    overlapping) on an otherwise transparent canvas: where only one of them covers a pixel it is blended over transparency"""
+    W, H = rng.randint(2, 8), rng.randint(1, 4)
+    lo0, lo1 = rng.choice([(128, 255), (255, 128), (77, 200), (1, 254), (0, 255), (255, 0)])
+    c = (rng.randrange(256), rng.randrange(256), rng.randrange(256), rng.choice([255, 255, 128]))
+    w0, h0, w1, h1 = rng.randint(1, 2), 1, rng.randint(1, 2), 1
+    x0, y0 = rng.randint(0, W - 1), rng.randint(0, H - 1)
+    x1, y1 = rng.choice([(0, 0), (x0 - w1, y0), ((x0 + 1) % W, y0), (rng.randint(0, W - 1), rng.randint(0, H - 1))])
+    B = [(0, 0, 0, 0)] * (W * H)
+    S: List[Optional[tuple]] = [None] * (W * H)
+    for xx in range(w0):
+        if 0 <= x0 + xx < W:
+            a2 = mul_un8(c[3], lo0)
+            B[y0 * W + x0 + xx] = (c[0], c[1], c[2], a2) if a2 else (0, 0, 0, 0)
+    for xx in range(w1):
+        if 0 <= x1 + xx < W and 0 <= y1 < H:
+            S[y1 * W + x1 + xx] = c
+    fr = ase.Frame(chunks=[
+        ase.LayerChunk(flags=1, blend=mode, opacity=lo0, name="b"), ase.LayerChunk(flags=1, blend=mode, opacity=lo1, name="s"),
+        ase.CelChunk(layer=0, x=x0, y=y0, w=w0, h=h0, pixels=ase.rgba_bytes([c] * (w0 * h0)), ctype_cel=0),
+        ase.CelChunk(layer=1, x=x1, y=y1, w=w1, h=h1, pixels=ase.rgba_bytes([c] * (w1 * h1)), ctype_cel=0)])
+    return ase.serialize(ase.Sprite(width=W, height=H, frames=[fr])), B, S, lo1, 255
+
+
+def blend_same_image(mode: int, rng: random.Random):
+    """both layers hold the SAME pixels and have the same blend mode, with different opacities (runs of equal pixels included):
+    the backdrop the upper layer meets is the lower cel over the transparent canvas, i.e. its colour with alpha scaled"""
+    W, H = rng.randint(2, 12), rng.randint(1, 6)
+    lo0, lo1 = rng.choice([(128, 255), (255, 128), (77, 200), (255, 255), (1, 255), (0, 255), (255, 0), (0, 128)])
+    P = []
+    if rng.random() < 0.5:
+        # one colour everywhere on a tiny canvas (the last blend of the lower cel and the first of the upper one see the same source)
+        W, H = rng.choice([(1, 1), (2, 1), (1, 2), (3, 1), (2, 2)])
+        P = [(rng.randrange(256), rng.randrange(256), rng.randrange(256), rng.choice([255, 255, 128]))] * (W * H)
+    while len(P) < W * H:
+        px = (rng.randrange(256), rng.randrange(256), rng.randrange(256), rng.choice([255, 255, 128, 1]))
+        P += [px] * rng.randint(1, 4)
+    P = P[:W * H]
+    B = []
+    for (r, g, b, a) in P:
+        a2 = mul_un8(a, lo0)
+        B.append((r, g, b, a2) if a2 else (0, 0, 0, 0))
+    fr = ase.Frame(chunks=[
+        ase.LayerChunk(flags=1, blend=mode, opacity=lo0, name="b"), ase.LayerChunk(flags=1, blend=mode, opacity=lo1, name="s"),
+        ase.CelChunk(layer=0, w=W, h=H, pixels=ase.rgba_bytes(P), ctype_cel=0),
+        ase.CelChunk(layer=1, w=W, h=H, pixels=ase.rgba_bytes(P), ctype_cel=0)])
+    return ase.serialize(ase.Sprite(width=W, height=H, frames=[fr])), B, list(P), lo1, 255
 
 
 def blend_offset_image(mode: int, rng: random.Random):
@@ -1684,6 +1838,18 @@ def blend_check(prop: str, tier: str, seed: int) -> int:
             for j in range(6 if quick else 60):
                 data, B, S, lo, co = blend_offset_image(m if j else 0, rng)
                 cases.append((m if j else 0, -1, "offset", w.put(data), B, S, lo, co))
+            # both layers hold the same pixels and use the same mode (different opacities)
+            for j in range(8 if quick else 60):
+                data, B, S, lo, co = blend_same_image(m, rng)
+                cases.append((m, -1, "same", w.put(data), B, S, lo, co))
+            # two one-colour cels placed apart, same mode, different opacities
+            for j in range(8 if quick else 60):
+                data, B, S, lo, co = blend_apart_image(m, rng)
+                cases.append((m, -1, "apart", w.put(data), B, S, lo, co))
+            # cels of more than 65536 pixels
+            if m in (0, 1, 2, 9, 12) or not quick:
+                data, B, S, lo, co = blend_wide_image(m, rng)
+                cases.append((m, -1, "wide", w.put(data), B, S, lo, co))
             # the source layer is a tilemap layer
             for j in range(4 if quick else 40):
                 data, B, S, lo, co = blend_tilemap_image(m, rng)
@@ -1947,10 +2113,20 @@ def c10_program(seq: List[str], uds: List[dict], splits: Tuple[int, ...] = ()):
             cels0.add(l)
             chunks0.append(ase.CelChunk(layer=l, ctype_cel=1, linked=0))
             ctx = ("cel", fidx, l)
-        elif e == "slice":
-            chunks0.append(ase.SliceChunk(name="S%d" % nslices, keys=[ase.SliceKey(w=1, h=1)]))
+        elif e == "slice" or e == "slice0":
+            # "slice0": a slice chunk with no keys at all - still an entity that owns the records that follow it
+            chunks0.append(ase.SliceChunk(name="S%d" % nslices, keys=[ase.SliceKey(w=1, h=1)] if e == "slice" else []))
             ctx = ("slice", nslices)
             nslices += 1
+        elif e == "tcel":
+            # a tilemap cel on a tilemap layer of its own (tileset 0 is declared on first use)
+            if not any(isinstance(c, ase.TilesetChunk) for c in chunks0):
+                chunks0.append(ase.TilesetChunk(id=0, tile_count=2, tile_w=1, tile_h=1, pixels=bytes(8)))
+            chunks0.append(ase.LayerChunk(name="M%d" % nlayers, ltype=2, tileset=0))
+            chunks0.append(ase.CelChunk(layer=nlayers, ctype_cel=3, w=1, h=1, tiles=[1]))
+            cels0.add(nlayers)
+            ctx = ("cel", fidx, nlayers)
+            nlayers += 1
         elif e.startswith("tags"):
             if have_tags or fidx > 0:
                 return None          # a second tags chunk would replace the first; tags outside frame 0 are ignored: keep programs simple
@@ -2037,10 +2213,17 @@ def check_C10(tier: str, seed: int) -> int:
         exhaustive_n = len(cases)
         for _ in range(300 if tier == "quick" else 5000):
             n = rng.randint(maxlen + 1, 40)
-            seq = [rng.choice(C10_ALPHABET + ["ud", "ud", "layer"]) for _ in range(n)]
+            seq = [rng.choice(C10_ALPHABET + ["ud", "ud", "layer", "slice0", "tcel"]) for _ in range(n)]
             prog = c10_program(seq, uds)
             if prog is not None:
                 cases.append((seq, prog))
+        for pre in (["layer"], ["layer", "ud"], ["layer", "cel"], ["slice"], ["tags1"], ["oldpal"], []):
+            for ev_ in ("slice0", "tcel"):
+                for post in (["ud"], [], ["ignorable", "ud"], ["ud", "layer", "ud"]):
+                    seq = pre + [ev_] + post
+                    prog = c10_program(seq, uds)
+                    if prog is not None:
+                        cases.append((seq, prog))
         # the same rule across frame boundaries: an entity at the end of one frame, its record at the start of a later one
         multi = 0
         for seq, _prog in list(cases[:exhaustive_n:3]) + list(cases[exhaustive_n:]):
